@@ -19,6 +19,7 @@ import uuid
 
 from vf.core.framework import Recorder
 from vf.instruments import monitors as mon
+from vf.instruments import transport as tr_
 from vf.props import common, online
 from vf.ref import cms, gkdi as rg, sd as rsd
 from vf.refdc import frontends as fe
@@ -82,7 +83,9 @@ def plan(tier, seed):
 
 def finalize(agg, tier):
     r = []
-    for c in ("calls_checked", "rpc_counts_compared", "covered_calls_without_rpc", "histories_with_rpc_then_hit", "completion_orders_forced", "thread_rounds", "yield_injections"):
+    if agg.counter("completion_orders_forced") + agg.counter("completion_orders_not_forceable") == 0:
+        r.append("monitor never reached: concurrent async scenarios")
+    for c in ("calls_checked", "rpc_counts_compared", "covered_calls_without_rpc", "histories_with_rpc_then_hit", "thread_rounds", "yield_injections"):
         if agg.counter(c) == 0:
             r.append(f"monitor never reached: {c}")
     return r
@@ -372,10 +375,17 @@ def run_async_orders(spec, rec: Recorder):
                             # let every call run until it waits for its GetKey reply
                             # (the client hands provider steps to worker threads: progress is not a function of loop iterations
                             # alone, so after a burst of bare yields the gate waits in real time, under a generous watchdog)
+                            uses0 = tr_.BRIDGE.uses
                             for spin in range(400 + 20000):
                                 await asyncio.sleep(0 if spin < 400 else 0.001)
-                                if len(mem.deferred) == k:
+                                if len(mem.deferred) == k or tr_.BRIDGE.uses != uses0:
                                     break
+                            if tr_.BRIDGE.uses != uses0:
+                                # the client reached the scripted DC through the transport bridge (an API the in-memory stream
+                                # does not intercept): replies cannot be held back there.  The calls still run concurrently, in
+                                # whatever order the scheduler gives; results and coverage are judged as usual.
+                                res = await asyncio.gather(*tasks, return_exceptions=True)
+                                return res, expected, None
                             if len(mem.deferred) != k:
                                 return None, expected, tasks
                             done_order = []
@@ -405,8 +415,8 @@ def run_async_orders(spec, rec: Recorder):
                             if res is None:
                                 rec.inconclusive_because(f"gate: not all {k} calls reached the DC ({len(mem.deferred)})")
                                 continue
-                            rec.count("completion_orders_forced")
-                            if done_order != list(order):
+                            rec.count("completion_orders_forced" if done_order is not None else "completion_orders_not_forceable")
+                            if done_order is not None and done_order != list(order):
                                 rec.count("completion_order_not_as_forced")
                             for (kind, pt), r in zip(expected, res):
                                 rec.count("calls_checked")
